@@ -112,6 +112,18 @@ namespace hv
                         auto d = in.as_dict();
                         s += ",\"added\":" + keys_json(d.added_keys()) + ",\"removed\":" + keys_json(d.removed_keys()) + ",\"modk\":" + keys_json(d.modified_keys()) +
                              ",\"size\":" + std::to_string(d.size());
+                        {   // the same delta through the (key, child) views: must name the same keys as the key views
+                            auto item_keys = [](auto &&range) {
+                                std::vector<std::string> ks;
+                                for (auto &&[k, child] : range) { (void)child; ks.push_back(jstr(k)); }
+                                std::sort(ks.begin(), ks.end());
+                                std::string r = "[";
+                                for (size_t i = 0; i < ks.size(); ++i) r += (i ? "," : "") + ks[i];
+                                return r + "]";
+                            };
+                            s += ",\"addi\":" + item_keys(d.added_items()) + ",\"remi\":" + item_keys(d.removed_items()) +
+                                 ",\"modi\":" + item_keys(d.modified_items());
+                        }
                         std::vector<std::pair<std::string, std::string>> items;
                         for (auto &&[k, child] : d.items()) items.emplace_back(jstr(k), describe(child, depth + 1));
                         std::sort(items.begin(), items.end());
